@@ -75,6 +75,7 @@ theorem prec_wrap (e : Expr) : prec (wrap e) ≤ 3 := by
   cases e <;> simp [wrap, prec]
   split <;> omega
 
+theorem wrap_paren (e : Expr) : wrap (.paren e) = .paren e := rfl
 theorem wrap_var (n : String) : wrap (.var n) = .var n := rfl
 theorem wrap_bin (op : String) (l r : Expr) : wrap (.bin op l r) = .paren (.bin op l r) := rfl
 
@@ -164,5 +165,56 @@ theorem valueExpr_grouped (l : LoopSpec) (magic : String) (hi : Grouped l.init)
     have hs : grouped s = true := hst s rfl
     have ps := prec_wrap s
     cases positive <;> simp [valueExpr, grouped, prec_bin, prec_paren, prec_var, f1, f2, f3, grouped_wrap, hi, hs, wrap_var, wrap_bin] <;> omega
+
+/-! ### C18: the tile transformation -/
+
+theorem grouped_blockStride (l : LoopSpec) (T : Expr) (hT : Grouped T) (hst : ∀ s, l.step = some s → Grouped s) :
+    Grouped (wrap (blockStrideExpr l T)) := by
+  unfold Grouped at *
+  obtain ⟨f1, f2, f3, f4⟩ := prec_facts
+  have pT := prec_wrap T
+  cases hstep : l.step with
+  | none => simp [blockStrideExpr, hstep, grouped_wrap, hT]
+  | some s =>
+    have hs : grouped s = true := hst s hstep
+    have ps := prec_wrap s
+    simp [blockStrideExpr, hstep, grouped, wrap_bin, wrap_paren, prec_bin, f3, grouped_wrap, hT, hs]
+    omega
+
+theorem tileSpec_grouped (l : LoopSpec) (t : TileSpec) (hT : Grouped t.T)
+    (hst : ∀ s, l.step = some s → Grouped s) :
+    Grouped (innerSpec l t).bound ∧ (∀ s, (blockSpec l t).step = some s → Grouped (wrap s)) := by
+  have hb := grouped_blockStride l t.T hT hst
+  constructor
+  · unfold Grouped at *
+    obtain ⟨f1, f2, f3, f4⟩ := prec_facts
+    have pw := prec_wrap (blockStrideExpr l t.T)
+    cases hp : l.positive <;>
+      simp [innerSpec, grouped, wrap_bin, prec_bin, prec_var, f1, f2, hb, hp] <;> omega
+  · intro s hs
+    simp only [blockSpec, Option.some.injEq] at hs
+    rw [← hs]
+    exact hb
+
+theorem tileSpec_value (l : LoopSpec) (t : TileSpec) (env : String → Int) (xT : Int)
+    (hfresh : ∀ e : Expr, e = l.init ∨ e = l.bound ∨ l.step = some e ∨ e = t.T →
+      eval (fun n => if n = tiledName l.var then xT else env n) e = eval env e) :
+    (blockSpec l t).header env = blockHeader (l.header env) (eval env t.T) ∧
+    (innerSpec l t).header (fun n => if n = tiledName l.var then xT else env n)
+      = innerHeader (l.header env) (eval env t.T) xT := by
+  obtain ⟨var, attr, index, ityp, init, cmp, right, bound, positive, post, step⟩ := l
+  have hT := hfresh t.T (Or.inr (Or.inr (Or.inr rfl)))
+  constructor
+  · cases positive <;> cases step <;>
+      simp [blockSpec, blockStrideExpr, LoopSpec.header, blockHeader, stride, Header.positiveUpdate, eval, evalBin,
+            eval_wrap, wrap_bin]
+  · cases positive <;> cases step with
+    | none =>
+      simp [innerSpec, blockStrideExpr, LoopSpec.header, innerHeader, stride, Header.positiveUpdate, eval, evalBin,
+            eval_wrap, wrap_bin, hT]
+    | some s =>
+      have hs := hfresh s (Or.inr (Or.inr (Or.inl rfl)))
+      simp [innerSpec, blockStrideExpr, LoopSpec.header, innerHeader, stride, Header.positiveUpdate, eval, evalBin,
+            eval_wrap, wrap_bin, hT, hs]
 
 end Occa.LoopExpr
